@@ -74,7 +74,23 @@ def main():
     chk = cls(a.tier, a.seed)
     if a.replay:
         sys.exit(core.replay(chk, a.replay))
-    sys.exit(core.run_check(chk))
+    try:
+        rc = core.run_check(chk)
+    except SystemExit:
+        raise
+    except BaseException as e:
+        # the harness itself fell over (e.g. the code it instruments changed shape): the property is no longer shown to hold
+        import traceback, hashlib
+        tb = traceback.format_exc()
+        os.makedirs(os.path.join(core.VERIF, 'replays'), exist_ok=True)
+        path = os.path.join(core.VERIF, 'replays', '%s-%s.json' % (a.prop, hashlib.sha1(tb.encode()).hexdigest()[:12]))
+        json.dump({'property': a.prop, 'kind': 'no-failing-input-found',
+                   'no_longer_checks': [{'broken': 'correspondence harness raised %s' % type(e).__name__, 'detail': tb[-3000:]}],
+                   'how_to_replay': './check %s --tier %s' % (a.prop, a.tier)}, open(path, 'w'), indent=1)
+        print(tb[-1500:])
+        print('VIOLATION property=%s replay=%s no-failing-input-found' % (a.prop, path))
+        sys.exit(1)
+    sys.exit(rc)
 
 
 if __name__ == '__main__':
